@@ -5,7 +5,15 @@ From PV Require Import Gen.FileSelConst Cli.Glob Cli.FileSel Cli.FileSelLinks.
 Import ListNotations.
 Open Scope N_scope.
 
-Lemma spec_view_no_links : forall follow t, no_links t = true -> spec_view follow t = [code_view t].
+Lemma no_links_only_dangling : forall t, no_links t = true -> only_dangling_links t = true.
+Proof.
+  fix IH 1. intros [n | n cs | n k cs] H; simpl in *; try reflexivity; try discriminate.
+  induction cs as [| c cs IHcs]; simpl in *; [reflexivity |].
+  apply andb_true_iff in H. destruct H as [Hc Hcs]. rewrite (IH c Hc). simpl. apply IHcs. exact Hcs.
+Qed.
+
+(* a dangling link is to the code what it is to the property, whatever follow_symlinks says: nothing *)
+Lemma spec_view_only_dangling : forall follow t, only_dangling_links t = true -> spec_view follow t = code_view t.
 Proof.
   intro follow. fix IH 1. intros [n | n cs | n k cs] H; simpl in *.
   - reflexivity.
@@ -13,56 +21,31 @@ Proof.
     induction cs as [| c cs IHcs]; simpl in *.
     + reflexivity.
     + apply andb_true_iff in H. destruct H as [Hc Hcs].
-      rewrite (IH c Hc). simpl. f_equal. apply IHcs. exact Hcs.
-  - discriminate.
+      rewrite (IH c Hc). f_equal. apply IHcs. exact Hcs.
+  - clear IH. destruct k; try discriminate H. destruct follow; reflexivity.
 Qed.
 
-Lemma spec_world_no_links : forall follow w, no_links w = true -> spec_world follow w = code_view w.
-Proof. intros. unfold spec_world. rewrite spec_view_no_links by assumption. reflexivity. Qed.
+Lemma spec_world_only_dangling : forall follow w, only_dangling_links w = true -> spec_world follow w = code_world w.
+Proof. intros. unfold spec_world, code_world. rewrite spec_view_only_dangling by assumption. reflexivity. Qed.
+
+(* on a tree whose links are all dangling the specification is the C18 one on the tree without them *)
+Lemma analyzed_spec_only_dangling : forall follow w cwd ts r inc exc, only_dangling_links w = true ->
+  analyzed_spec follow w cwd ts r inc exc = spec_list (code_world w) cwd ts r inc exc.
+Proof. intros. unfold analyzed_spec. rewrite spec_world_only_dangling by assumption. reflexivity. Qed.
 
 (* without links the specification is the old one, whatever follow_symlinks says *)
 Lemma analyzed_spec_no_links : forall follow w cwd ts r inc exc, no_links w = true ->
-  analyzed_spec follow w cwd ts r inc exc = spec_list (code_view w) cwd ts r inc exc.
-Proof. intros. unfold analyzed_spec. rewrite spec_world_no_links by assumption. reflexivity. Qed.
+  analyzed_spec follow w cwd ts r inc exc = spec_list (code_world w) cwd ts r inc exc.
+Proof. intros. apply analyzed_spec_only_dangling. apply no_links_only_dangling. assumption. Qed.
 
-(* a link-free tree has no dangling location *)
-Lemma llookup_no_links_not_link : forall loc w, no_links w = true ->
-  match llookup w loc with Some (LLink _ _ _) => False | _ => True end.
-Proof.
-  induction loc as [| n rest IH]; intros w H; simpl.
-  - destruct w; simpl in *; try exact I. discriminate.
-  - destruct w as [m | m cs | m k cs]; simpl in *; try exact I.
-    assert (Hc : forall c, lfind_child n cs = Some c -> no_links c = true).
-    { clear IH. induction cs as [| c0 cs IHcs]; simpl in *; intros c Hf; [discriminate |].
-      apply andb_true_iff in H. destruct H as [H0 Hs].
-      destruct (str_eqb (lnode_name c0) n); [inversion Hf; subst; exact H0 | apply IHcs; assumption]. }
-    destruct (lfind_child n cs) as [c |] eqn:E; [| exact I].
-    apply IH. apply Hc. reflexivity.
-Qed.
-
-Lemma dangling_at_no_links : forall w loc, no_links w = true -> dangling_at w loc = false.
-Proof.
-  intros w loc H. unfold dangling_at. pose proof (llookup_no_links_not_link loc w H) as P.
-  destruct (llookup w loc) as [[| |] |]; try reflexivity. contradiction.
-Qed.
-
-Lemma existsb_dangling_no_links : forall w locs, no_links w = true -> existsb (dangling_at w) locs = false.
-Proof.
-  intros w locs H. induction locs as [| l ls IH]; simpl; [reflexivity |].
-  rewrite dangling_at_no_links by assumption. exact IH.
-Qed.
-
-(* without links the analyses never fail because of the tree: the outcome is the collected list filtered to files *)
-Lemma analyzed_code_no_links : forall w cwd ts r inc exc, no_links w = true ->
+(* the outcome is the collected list of the tree the code sees, filtered to what can be read (by definition) *)
+Lemma analyzed_code_collects : forall w cwd ts r inc exc,
   analyzed_code w cwd ts r inc exc =
   option_map (fun ps => filter (readable_at w) (map (fun p => segs (abs cwd p)) ps))
-             (collect_python_files (code_view w) cwd ts r inc exc).
-Proof.
-  intros. unfold analyzed_code. destruct (collect_python_files (code_view w) cwd ts r inc exc); simpl; [| reflexivity].
-  rewrite existsb_dangling_no_links by assumption. reflexivity.
-Qed.
+             (collect_python_files (code_world w) cwd ts r inc exc).
+Proof. reflexivity. Qed.
 
-(* ---- the three ways the code differs from the property on trees with links ------------------------------------------ *)
+(* ---- the two ways the code differs from the property on trees with links, and the one it no longer does ------------------------------------------ *)
 Definition s (l : list N) : str := l.
 Definition n_a : name := [97; 46; 112; 121].          (* a.py *)
 Definition n_l : name := [108; 46; 112; 121].         (* l.py *)
@@ -84,9 +67,15 @@ Lemma dir_link_never_followed :
   analyzed_spec true w_dir_link [n_p] [mkpath false []] true inc_all [] = [[n_p; n_a]; [n_p; n_d; n_l]].
 Proof. split; vm_compute; reflexivity. Qed.
 
-(* /p/{a.py, l.py -> nothing}: one dangling link and no file is analysed at all *)
+(* /p/{a.py, l.py -> nothing}: the dangling link is skipped, the other file is analysed (it used to hide every file) *)
 Definition w_dangling : lnode := LDir [] [LDir n_p [LFile n_a; LLink n_l KDangling []]].
-Lemma dangling_link_hides_every_file :
-  analyzed_code w_dangling [n_p] [mkpath false []] true inc_all [] = None /\
-  (forall follow, analyzed_spec follow w_dangling [n_p] [mkpath false []] true inc_all [] = [[n_p; n_a]]).
-Proof. split; [vm_compute; reflexivity | intros []; vm_compute; reflexivity]. Qed.
+Lemma dangling_link_skipped :
+  forall follow, analyzed_code w_dangling [n_p] [mkpath false []] true inc_all [] =
+                 Some (analyzed_spec follow w_dangling [n_p] [mkpath false []] true inc_all []) /\
+                 analyzed_spec follow w_dangling [n_p] [mkpath false []] true inc_all [] = [[n_p; n_a]].
+Proof. intros []; split; vm_compute; reflexivity. Qed.
+
+(* named as a target it is an error, like any path that does not exist *)
+Lemma dangling_link_as_target_fails :
+  analyzed_code w_dangling [n_p] [mkpath false [n_l]] true inc_all [] = None.
+Proof. vm_compute. reflexivity. Qed.
